@@ -109,7 +109,7 @@ CLAUSE = {
     "stdio": "sys.stdin/stdout/stderr unchanged",
     "sigint-handler": "Ctrl-C still interrupts (handler left addressed to a finished stage)",
     "sig-handlers": "Ctrl-C still interrupts / signal handlers swapped while a stage ran are restored",
-    "stage-thread-died": "no wedged session",
+    "stage-thread-died": "no wedged session / Ctrl-C still interrupts (a stage thread died inside xonsh's own code, outside the alias)",
     "sigint-probe": "Ctrl-C still interrupts",
     "env": "environment unchanged apart from documented effects",
     "hang": "repeating a command cannot wedge the session",
@@ -246,11 +246,16 @@ def judge(res):
     for tag, s in (("after_1", s1), ("after_3", s3)):
         if s["cwd"] != s0["cwd"]:
             v["cwd"] = {"observed": {tag: s["cwd"]}, "expected": s0["cwd"]}
+        repl, closed = {}, []
         for n in sorted(s0["stdio"]):
             if s["stdio"][n][0] != s0["stdio"][n][0]:
-                v[f"stdio[{n},replaced-by-{s['stdio'][n][2]}]"] = {"observed": {tag: f"a different object ({s['stdio'][n][2]})"}, "expected": f"the same {s0['stdio'][n][2]} object"}
+                repl[n] = s["stdio"][n][2]
             elif s["stdio"][n][1] and not s0["stdio"][n][1]:
-                v[f"stdio[{n},closed]"] = {"observed": {tag: "closed"}, "expected": "open"}
+                closed.append(n)
+        if repl:
+            v[f"stdio[replaced-by-{'+'.join(sorted(set(repl.values())))}]"] = {"observed": {tag: {f"sys.{n}": f"a different object ({t})" for n, t in repl.items()}}, "expected": "the same objects as before"}
+        if closed:
+            v["stdio[closed]"] = {"observed": {tag: {f"sys.{n}": "closed" for n in closed}}, "expected": "open"}
         dead = {}
         for sig in sorted(s0["handlers"]):
             h0, h = s0["handlers"][sig], s["handlers"][sig]
@@ -312,7 +317,11 @@ CONFIRM = ("child-left", "thread-left", "sigint-probe", "fd-closed", "env", "cwd
 
 
 def _needs_confirmation(r):
-    return not r["deaths"] and any(s.startswith(CONFIRM) for s in r["sigs"])
+    return bool(r["sigs"]) and (bool(r["deaths"]) or any(s.startswith(CONFIRM) for s in r["sigs"]))
+
+
+def _death_sig(d):
+    return f"stage-thread-died[{d}]"
 
 
 def _simplifications(cid):
@@ -355,23 +364,38 @@ class Reducer:
         self.extra_runs = 0
         self.memo = {}
 
-    def sigs_of(self, cid, on_demand=True):
+    def _fresh(self, cid):
+        stages, cap, red, fid = cid
+        fault = None if fid is None else {"role": fid[0], "label": fid[1], "ordinal": fid[2], "exc": fid[3]}
+        self.extra_runs += 1
+        r = _run(_mk_case(stages, cap, red, fault=fault))
+        return r if (fid is None or r["fired"]) else None
+
+    def sigs_of(self, cid, sig, on_demand=True):
+        """Signatures of a candidate, or None when it cannot be compared."""
         if cid not in self.results:
             if not on_demand:
                 return None
-            stages, cap, red, fid = cid
-            fault = None if fid is None else {"role": fid[0], "label": fid[1], "ordinal": fid[2], "exc": fid[3]}
-            r = _run(_mk_case(stages, cap, red, fault=fault))
-            self.extra_runs += 1
-            self.results[cid] = r if (fid is None or r["fired"]) else None
+            self.results[cid] = self._fresh(cid)
         r = self.results[cid]
-        if r is None or r["deaths"]:
+        if r is None:
+            return None
+        if sig.startswith("stage-thread-died"):
+            return {_death_sig(d) for d in r["deaths"]}
+        tries = 0
+        while r["deaths"] and on_demand and tries < 3:
+            # an intermittent stage-thread death spoiled this run of the candidate: ask again
+            tries += 1
+            r2 = self._fresh(cid)
+            if r2 is not None and not r2["deaths"]:
+                self.results[cid] = r = r2
+        if r["deaths"]:
             return None
         return r["sigs"]
 
-    def reduce(self, cid, sig):
+    def reduce(self, cid, sig, on_demand=True):
         path = []
-        on_demand = sig != "hang"  # never go looking for further 20 s hangs
+        on_demand = on_demand and sig != "hang"  # never go looking for further 20 s hangs
         while True:
             if (cid, sig) in self.memo:
                 cid = self.memo[(cid, sig)]
@@ -380,7 +404,7 @@ class Reducer:
             for cand in _simplifications(cid):
                 if not _valid(cand[0], cand[2]):
                     continue
-                r = self.sigs_of(cand, on_demand)
+                r = self.sigs_of(cand, sig, on_demand)
                 if r is not None and sig in r:
                     cid = cand
                     break
@@ -403,10 +427,20 @@ def key_of(cid, sig):
 
 
 def stdio_key(cid, sig):
-    """sys.std* damage comes from stage threads swapping the process-global streams; what matters
-    is how many threaded stages there were (and the injected fault), not the exact shape."""
+    """sys.std* damage comes from stage threads swapping the process-global streams (a real-time
+    race when two of them overlap): what matters is how many threaded stages there were and
+    whether a fault was injected, not the exact shape."""
     n = sum(k.startswith("thr_") for k in cid[0])
-    return f"{sig}:threaded-stages={n if n < 2 else '2+'}" + _fault_suffix(cid[3] and (cid[3][0], cid[3][1], cid[3][2], ""))
+    return f"{sig}:threaded-stages={n if n < 2 else '2+'}" + (":with-fault" if cid[3] else "")
+
+
+_RESULTS = None
+
+
+def _reduce_worker(item):
+    cid, sig = item
+    red = Reducer(_RESULTS)
+    return red.reduce(cid, sig), red.extra_runs
 
 
 # ------------------------------------------------------------------ run / replay
@@ -472,18 +506,39 @@ def run(ctx):
     todo = [cid for cid in order if _needs_confirmation(results[cid])]
     again = common.pmap(_run, [cases_by_cid[c] for c in todo for _ in range(2)], ctx.jobs, chunk=2, init=_init, seed=ctx.seed)
     unconfirmed = Counter()
+    steady_death = {}  # cid -> [death signatures seen in 3 runs out of 3]
     for i, cid in enumerate(todo):
         r = results[cid]
+        runs = again[2 * i : 2 * i + 2]
+        if r["deaths"]:
+            steady_death[cid] = [d for d in r["deaths"] if all(d in a["deaths"] for a in runs)]
+            continue
         for sig in [s for s in r["sigs"] if s.startswith(CONFIRM)]:
-            if not all(sig in a["sigs"] for a in again[2 * i : 2 * i + 2]):
+            if not all(sig in a["sigs"] for a in runs):
                 unconfirmed[sig.split("[")[0]] += 1
                 del r["sigs"][sig]
     ctx.log(f"confirmation: {len(todo)} cases re-run twice; unconfirmed observations dropped: {dict(unconfirmed)}")
 
-    # keys
+    # keys.  Stage 1: descent inside the enumerated results; stage 2 (parallel): the provisional
+    # fixpoints are reduced further, executing candidates that were not enumerated.
+    global _RESULTS
+    inset = Reducer(results)
+    prov = {}
+    for cid in order:
+        r = results[cid]
+        if r["deaths"]:
+            continue
+        for sig in r["sigs"]:
+            if not sig.startswith("stdio"):
+                prov[(cid, sig)] = inset.reduce(cid, sig, on_demand=False)
+    fix = sorted({(m, sig) for (_c, sig), m in prov.items()}, key=repr)
+    _RESULTS = results
+    fin = common.pmap(_reduce_worker, fix, ctx.jobs, chunk=1, init=_init, seed=ctx.seed)
+    final = {k: m for k, (m, _n) in zip(fix, fin)}
+    extra_runs = sum(n for _m, n in fin)
+
     n_viol_cases = 0
     n_tainted = 0
-    reducer = Reducer(results)
     for cid in order:
         r = results[cid]
         if not r["sigs"]:
@@ -492,21 +547,24 @@ def run(ctx):
         case = cases_by_cid[cid]
         note = f"outcomes per repetition: {r['outcomes']}; stderr tail: {r['stderr_tail'][-200:]!r}"
         if r["deaths"]:
+            # a stage thread died in xonsh's own code (not in the alias): whatever else differs in
+            # this run is a consequence, and where/why the thread died IS the root cause - the
+            # shape only decides the timing.  Reproduced 3/3 -> keyed by the exact death; otherwise
+            # (a real-time race between stage threads) under one key per thread class.
             n_tainted += 1
-            ctx.violation(
-                "stage-thread-died[" + "+".join(r["deaths"]) + "]",
-                "no wedged session / Ctrl-C still interrupts (a stage thread died inside xonsh's own code, outside the alias)",
-                {"case": case, "line": H.render(case), "signature": "stage-thread-died"},
-                observed={"thread deaths": r["deaths"], "session differences": sorted(r["sigs"])},
-                expected="stage threads end normally; session as before",
-                note=note,
-            )
+            obs = {"thread deaths": r["deaths"], "session differences": sorted(r["sigs"])}
+            if steady_death.get(cid):
+                for d in steady_death[cid]:
+                    ctx.violation(_death_sig(d), CLAUSE["stage-thread-died"], {"case": case, "line": H.render(case), "signature": _death_sig(d)}, observed=obs, expected="stage threads end normally; session as before", note=note)
+            else:
+                classes = sorted({d.split(":")[0] for d in r["deaths"]})
+                ctx.violation("race:stage-thread-died[" + "+".join(classes) + "]", CLAUSE["stage-thread-died"], {"case": case, "line": H.render(case), "signature": "race:stage-thread-died"}, observed=obs, expected="stage threads end normally; session as before", note=note + " (intermittent: not reproduced 3/3)")
             continue
         for sig, det in r["sigs"].items():
             if sig.startswith("stdio"):
                 key, reduced = stdio_key(cid, sig), None
             else:
-                mcid = reducer.reduce(cid, sig)
+                mcid = final[(prov[(cid, sig)], sig)]
                 key, reduced = key_of(mcid, sig), H.render(_mk_case(*mcid[:3])).strip()
             ctx.violation(
                 key,
@@ -516,14 +574,14 @@ def run(ctx):
                 expected=det["expected"],
                 note=note,
             )
-    ctx.log(f"key reduction needed {reducer.extra_runs} extra runs")
+    ctx.log(f"key reduction needed {extra_runs} extra runs")
     # simplest-first artefacts
     ctx.violations.sort(key=lambda v: (v.case["case"]["fault"] is not None, _deviations(tuple(v.case["case"]["stages"]), v.case["case"]["capture"], v.case["case"]["redirect"]), len(v.case["case"]["stages"])))
 
     for cid in common.pick_samples([c for c in order if c[3] is None], ctx.seed, 5) + common.pick_samples([c for c in order if c[3] is not None], ctx.seed, 4):
         case, r = cases_by_cid[cid], results[cid]
         ctx.sample({"line": H.render(case), "fault": case["fault"], "outcomes": r["outcomes"], "acquisition_log": r["log"], "violated": sorted(r["sigs"])})
-    total = len(main_cases) + len(rec_cases) + len(fault_cases) + 2 * len(todo) + reducer.extra_runs
+    total = len(main_cases) + len(rec_cases) + len(fault_cases) + 2 * len(todo) + extra_runs
     nontrivial = {c for c in order if (c[3] is None and _deviations(*c[:3]) > 0)} | {_cid(c) for c, r in zip(fault_cases, fres) if r["fired"]}
     ctx.coverage.update(
         evaluations=total,
@@ -541,7 +599,7 @@ def run(ctx):
         cases_with_stage_thread_death=n_tainted,
         confirmation_reruns=2 * len(todo),
         unconfirmed_observations_dropped=dict(unconfirmed),
-        extra_runs_for_key_reduction=reducer.extra_runs,
+        extra_runs_for_key_reduction=extra_runs,
         bounds={
             "stages": "1-3" if ctx.thorough else "1-2",
             "deviation_bound": "none for 1-2 stages, 3 for 3 stages" if ctx.thorough else 2,
@@ -564,11 +622,12 @@ def replay(rec):
     c = rec["case"]
     case = c["case"]
     want = c["signature"]
+    death = want.startswith(("stage-thread-died", "race:stage-thread-died"))
     print("line:", repr(H.render(case)), "fault:", case.get("fault"))
-    attempts = 12 if want == "stage-thread-died" else 1
+    attempts = 12 if want.startswith("race:") else 3 if death else 1
     for n in range(attempts):
         r = _run(case)
-        if want != "stage-thread-died" or r["deaths"]:
+        if not death or r["deaths"]:
             break
     print("outcomes per repetition:", r["outcomes"])
     print("acquisition log:", r["log"])
@@ -577,12 +636,13 @@ def replay(rec):
         print(f"  {'*' if sig == want else ' '} {sig}")
         print("      observed:", common.jdump(det["observed"])[:600])
         print("      expected:", common.jdump(det["expected"])[:300])
-    if want == "stage-thread-died":
-        if r["deaths"] and r["sigs"]:
-            print(f"VIOLATION reproduced (attempt {n + 1}; scheduling-dependent): {rec.get('key')}")
+    if death:
+        hit = bool(r["deaths"]) and bool(r["sigs"]) and (want.startswith("race:") or want in {_death_sig(d) for d in r["deaths"]})
+        if hit:
+            print(f"VIOLATION reproduced (attempt {n + 1}): {rec.get('key')}; expected: stage threads end normally, session as before")
             print("stderr tail:", r["stderr_tail"])
             return 1
-        print(f"no stage thread died in {attempts} attempts (scheduling-dependent race)")
+        print(f"no stage thread died in {attempts} attempt(s)" + (" (scheduling-dependent race)" if attempts > 1 else ""))
         return 0
     if want in r["sigs"]:
         print(f"VIOLATION reproduced: {want}  (recorded key: {rec.get('key')})")
